@@ -503,6 +503,10 @@ class PosInterp:
             self.stmt(st, env)
 
     def stmt(self, st: ast.stmt, env: dict) -> None:
+        if isinstance(st, ast.Import) and all(al.name in ('re', 'unicodedata') for al in st.names):
+            for al in st.names:
+                env[al.asname or al.name] = _Mod(al.name)          # a function-level import of a pure standard-library module
+            return
         self.steps += 1
         if self.steps > self.MAX_STEPS:
             raise AnalysisError('POS-SEM: step budget exhausted')
@@ -768,6 +772,8 @@ class PosInterp:
             return self.sign_of(v, node) != 0
         if isinstance(v, (list, tuple, str, range, dict, set, frozenset)):
             return bool(v)
+        if type(v).__name__ in ('Match', 'Pattern'):
+            return True               # a match object (no match is None)
         if isinstance(v, Obj):
             return True
         raise self.err(node, f'truth value of {v!r}')
@@ -903,6 +909,11 @@ class PosInterp:
                 return ClassRef(e.id)                       # a class of the repository, named in an isinstance test or a constructor call
             raise self.err(e, 'name')
         if isinstance(e, ast.Attribute):
+            if isinstance(e.value, ast.Name) and e.value.id == 'unicodedata' and e.value.id not in env and e.attr in ('normalize', 'is_normalized', 'category', 'name', 'east_asian_width', 'combining') \
+                    and any(isinstance(im, ast.Import) and any(al.name == 'unicodedata' and al.asname is None for al in im.names) for im in self.mod.tree.body):
+                import unicodedata as _ud
+                fn_ = getattr(_ud, e.attr)
+                return _PyFn(lambda *a_, _f=fn_: _f(*a_) if all(isinstance(x_, str) for x_ in a_) else (_ for _ in ()).throw(AnalysisError('unicodedata over an abstract value')))
             if isinstance(e.value, ast.Name) and e.value.id not in env and e.attr in _RE_FUNCS \
                     and any(isinstance(im, ast.Import) and any(al.name == 're' and (al.asname or al.name) == e.value.id for al in im.names) for im in self.mod.tree.body):
                 import re as _re3
@@ -913,6 +924,13 @@ class PosInterp:
                            'operator.iadd', 'operator.add', 'operator.isub', 'operator.sub'):
                 return Builtin(norm(e))
             base = self.expr(e.value, env)
+            if isinstance(base, _Mod):
+                import importlib
+                mod_ = importlib.import_module(base.name)
+                if (base.name == 're' and e.attr in _RE_FUNCS) or (base.name == 'unicodedata' and e.attr in ('normalize', 'is_normalized', 'category', 'combining')):
+                    fn_ = getattr(mod_, e.attr)
+                    return fn_ if base.name == 're' else _PyFn(fn_)
+                raise self.err(e, f'attribute of module {base.name}')
             if isinstance(base, Obj):
                 if e.attr in base.f:
                     return base.f[e.attr]
@@ -955,6 +973,9 @@ class PosInterp:
                 return _ListAppend(base, e.attr)
             if isinstance(base, dict) and e.attr in ('get', 'items', 'keys', 'values', 'pop', 'setdefault'):
                 return _DictMethod(base, e.attr)
+            if base is None:
+                # what python does: the scenario reaches an attribute of None (a walk that ran off the end of the store, an absent child)
+                raise Raised(f"AttributeError: 'NoneType' object has no attribute '{e.attr}' (`{norm(e)[:60]}`, line {getattr(e, 'lineno', '?')})")
             raise self.err(e, 'attribute')
         if isinstance(e, ast.Subscript):
             base = self.expr(e.value, env)
@@ -1133,6 +1154,12 @@ class PosInterp:
 class _Lambda:
     def __init__(self, node: ast.Lambda, env: dict) -> None:
         self.node, self.env = node, env
+
+
+class _Mod:
+    """a pure standard-library module imported inside a function"""
+    def __init__(self, name: str) -> None:
+        self.name = name
 
 
 class _PyFn:
